@@ -16,6 +16,7 @@ import GocoinV.Proofs.C14Getpass
 import GocoinV.Proofs.C14Xpub
 import GocoinV.Proofs.C14Lookup
 import GocoinV.Proofs.C14Store
+import GocoinV.Proofs.C14Examples
 namespace GocoinV.Props.C14
 open GocoinV Proofs.C14 HD WalletKeys
 
@@ -409,6 +410,18 @@ theorem xpub_child_reimports (C : WalletCrypto) (s : Bytes) (w w' : HDWallet) (i
   · rw [hkey]; exact ser33_length Q
   · intro _ hn; rw [hparse] at hn; cases hn
 
+/-- non-vacuity of `xpub_import_is_curve_point`, `child_pub_result_is_point` and `xpub_child_reimports`, jointly: with
+    toy hash functions of the right output lengths (HMAC: I_L = 1, `Proofs.C14.toyC`) the extended public key holding G
+    is imported from its own string, it is a public version with 33 key bytes, and `Child(·, 0)` returns a key (2·G) —
+    all hypotheses of the three theorems hold together. -/
+example : ∃ s w w', stringWallet toyC s = .ok w ∧ isPublicPfx w.pfx = true ∧ w.key.length = 33 ∧ (0 : Nat) < 2 ^ 31 ∧
+    child toyC w 0 = .ok w' ∧ (∀ b, (toyC.shaHash b).length = 32) ∧ (∀ k m, (toyC.hmac512 k m).length = 64) ∧
+    (∀ b, (toyC.hash160 b).length = 20) := by
+  obtain ⟨w', hw'⟩ := ok_of_isSome _ toy_child_pub
+  exact ⟨HD.toString toyC toyPub, toyPub, w', stringWallet_toString toyC toyPub toyPub_serWF toyC_lens.1
+      (b58RoundTrip_of_ne _ (by simp [serialize, serializeBody])), by decide, by decide,
+    by decide, hw', toyC_lens⟩
+
 /-! ### the wallet's path walk and key list -/
 
 /-- The path walk of `make_wallet` is iterated `Child` along the configured path: the wallet that
@@ -454,12 +467,17 @@ theorem derive_is_bip32 (C : WalletCrypto) (path : List Nat) (w : HDWallet) (k k
       obtain ⟨w', e1, e2, e3, e4⟩ := ih _ k1 hw1 hr (fun x hx => hpath x (List.mem_cons_of_mem _ hx)) hspec
       exact ⟨w', by simp [derive, hchild, e1], e2, e3, e4⟩
 
-/-- non-vacuity of `derive_is_bip32`'s hypotheses: scalar 1, the empty path -/
-example (C : WalletCrypto) : Spec.Bip32.derivePriv C.hmac512 (1, List.replicate 32 0) [] = some (1, List.replicate 32 0) ∧
-    0 < 1 ∧ 1 < Secp.n := ⟨rfl, by decide, by decide⟩
+/-- non-vacuity of `derive_is_bip32`'s hypotheses on a NON-EMPTY path: the private extended key with scalar 1
+    (`toyPriv`, well-formed), the path [0'] (one hardened step, index 2³¹ < 2³²), toy HMAC with I_L = 1: BIP32's
+    derivation is defined and gives scalar 2 -/
+example : PrivWF toyPriv 1 ∧ 0 < 1 ∧ 1 < Secp.n ∧ (∀ i ∈ [2 ^ 31], i < 2 ^ 32) ∧
+    Spec.Bip32.derivePriv toyC.hmac512 (1, toyPriv.chCode) [2 ^ 31] = some (2, List.replicate 32 0) :=
+  ⟨⟨by decide, rfl, by decide⟩, by decide, by decide, by decide, toy_spec_derive⟩
 
-/-- non-vacuity: the empty path (hdpath "m/x") succeeds -/
-example (C : WalletCrypto) (root : HDWallet) : walkPath C [] root none = .ok (root, none) := rfl
+/-- non-vacuity of `path_walk_spec`: the walk over the one-element path [0'] succeeds (and the empty one trivially) -/
+example : (∃ r, walkPath toyC [2 ^ 31] toyPriv none = .ok r) ∧
+    ∀ (C : WalletCrypto) (root : HDWallet), walkPath C [] root none = .ok (root, none) :=
+  ⟨ok_of_isSome _ toy_walk, fun _ _ => rfl⟩
 
 /-- The key list of one pass: exactly `keycnt` keys, the j-th being the key bytes of
     `Child(hdwal, (j + hdpath_last) mod 2³²)` — consecutive BIP32 children of the leaf account (uint32
@@ -473,8 +491,8 @@ theorem key_list_spec (C : WalletCrypto) (hdwal : HDWallet) (last : Nat) (pre : 
   obtain ⟨hd, e1, e2⟩ := h2 j hj
   exact ⟨hd, by simpa using e1, e2⟩
 
-/-- non-vacuity: zero keys -/
-example (C : WalletCrypto) (w : HDWallet) : type4Pass C w 0 [] 0 0 = .ok [] := rfl
+/-- non-vacuity: a pass that lists ONE key (child 0 of the toy account) succeeds -/
+example : ∃ ks, type4Pass toyC toyPriv 0 [] 1 0 = .ok ks := ok_of_isSome _ toy_pass1
 
 /-- The uint32 wrap of `hdpath_last + i`, stated exactly (observation 2 of the first report). For a last
     path element `last` < 2³² and key number j < 2³¹, write b = last mod 2³¹ (the number printed in the
@@ -501,7 +519,14 @@ theorem key_index_wrap (C : WalletCrypto) (hdwal : HDWallet) (last : Nat) (pre :
   rw [hardenedFrom_eq] at hlab
   refine ⟨h2 j hj, by simpa using hlab, ?_, ?_, ?_⟩ <;> omega
 
-/-- non-vacuity of the wrapped branches: last = 2³¹−1, key 1 and last = 2³²−1, key 1 -/
+/-- non-vacuity of ALL hypotheses in the wrapped branch: last = 2³¹−1, two keys — the pass succeeds with 2 keys, and
+    key j = 1 (< 2, < 2³¹) is the one whose index runs past 2³¹−1 -/
+example : ∃ ks, type4Pass toyC toyPriv (2 ^ 31 - 1) [] 2 0 = .ok ks ∧ 2 ^ 31 - 1 < 2 ^ 32 ∧ 1 < ks.length ∧ 1 < 2 ^ 31 ∧
+    1 + (2 ^ 31 - 1) % 2 ^ 31 ≥ 2 ^ 31 := by
+  obtain ⟨ks, hks, hl⟩ := toy_pass_wrap'
+  exact ⟨ks, hks, by decide, by omega, by decide, by decide⟩
+
+/-- the arithmetic side conditions of the wrapped branches: last = 2³¹−1, key 1 and last = 2³²−1, key 1 -/
 example : (1 + (2 ^ 31 - 1) % 2 ^ 31 ≥ 2 ^ 31 ∧ 2 ^ 31 - 1 < 2 ^ 31) ∧
     (1 + (2 ^ 32 - 1) % 2 ^ 31 ≥ 2 ^ 31 ∧ 2 ^ 32 - 1 ≥ 2 ^ 31 ∧ 2 ^ 32 - 1 < 2 ^ 32) := by decide
 
@@ -516,8 +541,9 @@ theorem hdsubs_step_spec (C : WalletCrypto) (prvwal : HDWallet) (prvidx last key
       ks = ks0 ++ rest :=
   type4Subs_step C prvwal prvidx last keycnt k sub pre ks h
 
-/-- non-vacuity: no further sub-account -/
-example (C : WalletCrypto) (w : HDWallet) : type4Subs C w 0 0 1 0 1 [] = .ok [] := rfl
+/-- non-vacuity of the hypothesis (k + 1 = 1: ONE further sub-account, one key in it): sub-account 1 of the toy parent
+    is derived and listed -/
+example : ∃ ks, type4Subs toyC toyPriv 0 0 1 (0 + 1) 1 [] = .ok ks := ok_of_isSome _ toy_subs
 
 /-! ### round trips -/
 
@@ -616,6 +642,9 @@ theorem address_is_listed_key (C : WalletCrypto) (c : Config) (kl : Bytes × Byt
     (c.atype = .tap → r.listed = addrStr C (Addr.fromPkScript C.hashes ([0x51, 32] ++ r.pubkey.drop 1) c.testnet)) :=
   mkKeyRec_spec C c kl r h
 
+/-- non-vacuity: with the toy hash functions the record of the key 00…01 is made (segwit mode) -/
+example : ∃ r, mkKeyRec toyC toyCfg (Spec.Bip32.ser256 1, []) = .ok r := ok_of_isSome _ toy_keyrec
+
 /-- The signer's lookup (`hash_to_key_idx`) for the hash of listed key i always finds a key: the FIRST
     index j ≤ i whose P2KH hash or segwit-slot hash equals that hash. (j = i unless two listed keys share a
     20-byte hash — stated honestly: the code returns the first match.) -/
@@ -655,6 +684,62 @@ theorem address_lookup_dispatch (C : WalletCrypto) (c : Config) (keys : List Key
   · simp [addressToKeyIdx, e, hl]
   · simp [addressToKeyIdx, e, hl]
 
+/-- What `sign_tx` / `pkscr_to_key_idx` find for the output scripts of LISTED key i (the code since /repo ebf80672:
+    each template against its own hash only). With 20-byte hashes: the P2PKH script `76 a9 14 h 88 ac` and the P2WPKH
+    script `00 14 h` of its public-key hash find the first record j ≤ i with that public-key hash; the P2SH script
+    `a9 14 H 87` of H = HASH160(00 14 h) finds — outside bech32/tap mode — the first j ≤ i whose own P2SH-P2WPKH hash
+    is H, and NOTHING for any hash in bech32/tap mode (there segwit[] holds witness-program addresses); the P2TR script
+    `51 20 x` finds the first j ≤ i with that x-only key. -/
+theorem script_lookup_own_forms (C : WalletCrypto) (c : Config) (keys : List KeyRec) (i : Nat) (hi : i < keys.length)
+    (hh : keys[i].h160.length = 20) (hp : keys[i].pubkey.length = 33) (hl : ∀ b, (C.hash160 b).length = 20) :
+    (∃ j, ∃ hj : j < keys.length, j ≤ i ∧
+      Store.scriptToKeyIdx C c keys (Store.p2pkhScr keys[i].h160) = some j ∧ keys[j].h160 = keys[i].h160) ∧
+    (∃ j, ∃ hj : j < keys.length, j ≤ i ∧
+      Store.scriptToKeyIdx C c keys (Store.p2wpkhScr keys[i].h160) = some j ∧ keys[j].h160 = keys[i].h160) ∧
+    (bech32Mode c.atype = false → ∃ j, ∃ hj : j < keys.length, j ≤ i ∧
+      Store.scriptToKeyIdx C c keys (Store.p2shScr (C.hash160 ([0, 20] ++ keys[i].h160))) = some j ∧
+      C.hash160 ([0, 20] ++ keys[j].h160) = C.hash160 ([0, 20] ++ keys[i].h160)) ∧
+    (bech32Mode c.atype = true → ∀ h : Bytes, h.length = 20 → Store.scriptToKeyIdx C c keys (Store.p2shScr h) = none) ∧
+    (∃ j, ∃ hj : j < keys.length, j ≤ i ∧
+      Store.scriptToKeyIdx C c keys (Store.p2trScr ((keys[i].pubkey.drop 1).take 32)) = some j ∧
+      (keys[j].pubkey.drop 1).take 32 = (keys[i].pubkey.drop 1).take 32) := by
+  refine ⟨?_, ?_, fun hm => ?_, fun hm h hlen => ?_, ?_⟩
+  · rw [Store.scriptToKeyIdx_p2pkh C c keys _ hh]; exact pubhashToKeyIdx_spec keys i hi
+  · rw [Store.scriptToKeyIdx_p2wpkh C c keys _ hh]; exact pubhashToKeyIdx_spec keys i hi
+  · rw [Store.scriptToKeyIdx_p2sh C c keys _ (hl _)]; exact scripthashToKeyIdx_spec C c keys i hi hm
+  · rw [Store.scriptToKeyIdx_p2sh C c keys _ hlen]; exact scripthashToKeyIdx_bech32 C c keys h hm
+  · rw [Store.scriptToKeyIdx_p2tr C c keys _ (by simp [hp])]; exact publicXoToKeyIdx_spec keys i hi
+
+/-- … and ONLY those (the statement of /repo fix ebf80672): whenever the script lookup attributes a script to record j,
+    that script IS one of record j's own four output scripts — its P2PKH or P2WPKH script, outside bech32/tap mode its
+    P2SH-P2WPKH script, or its P2TR script. A script that merely carries one of the wallet's hashes under another
+    template (`a9 14 HASH160(pubkey) 87`, `00 14 <P2SH hash>`, 20 zero bytes in bech32 mode, `a9 <not 14> … 87`) is
+    nobody's: the input stays unsigned and `-send` does not select it. For every hash-function instance. -/
+theorem script_lookup_foreign_forms (C : WalletCrypto) (c : Config) (keys : List KeyRec) (scr : Bytes) (j : Nat)
+    (e : Store.scriptToKeyIdx C c keys scr = some j) :
+    ∃ hj : j < keys.length,
+      scr = Store.p2pkhScr keys[j].h160 ∨ scr = Store.p2wpkhScr keys[j].h160 ∨
+      (bech32Mode c.atype = false ∧ scr = Store.p2shScr (C.hash160 ([0, 20] ++ keys[j].h160))) ∨
+      scr = Store.p2trScr ((keys[j].pubkey.drop 1).take 32) :=
+  Store.scriptToKeyIdx_only_own C c keys scr j e
+
+/-- non-vacuity of both (toy hashes: HASH160 b = 20 × first byte of b + 1): one record with 20-byte hash and 33-byte
+    public key; its four own scripts find it (segwit mode), and the witnesses of ebf80672 — the key hash under the P2SH
+    template, the P2SH hash under the P2WPKH and P2PKH templates, 20 zero bytes under all three in bech32 mode, a P2SH
+    script without the 0x14 push — find nobody. -/
+example :
+    let C : WalletCrypto := { sha256 := id, shaHash := id, hash160 := (fun b => List.replicate 20 (b.headD 0 + 1)), hmac512 := fun _ b => b, pbkdf2 := fun _ b => b, scrypt := fun _ _ => none }
+    let c (a : AType) : Config := { waltype := 3, hdpath := [], bip39wrds := 0, usescrypt := 0, hdsubs := 1, keycnt := 1, testnet := false, litecoin := false, atype := a, secretSeed := [] }
+    let k : KeyRec := { priv := [7], pubkey := 2 :: List.replicate 32 9, h160 := List.replicate 20 5, wif := [], p2kh := [], listed := [], label := [], listLabel := [] }
+    let sh : Bytes := C.hash160 ([0, 20] ++ k.h160)
+    k.h160.length = 20 ∧ k.pubkey.length = 33 ∧ sh ≠ k.h160 ∧
+    [Store.p2pkhScr k.h160, Store.p2wpkhScr k.h160, Store.p2shScr sh, Store.p2trScr (List.replicate 32 9)].map
+        (Store.scriptToKeyIdx C (c .segwit) [k]) = [some 0, some 0, some 0, some 0] ∧
+    [Store.p2shScr k.h160, Store.p2wpkhScr sh, Store.p2pkhScr sh, [0xa9, 0x15] ++ sh ++ [0x87]].map
+        (Store.scriptToKeyIdx C (c .segwit) [k]) = [none, none, none, none] ∧
+    [Store.p2shScr (List.replicate 20 0), Store.p2wpkhScr (List.replicate 20 0), Store.p2pkhScr (List.replicate 20 0),
+     Store.p2shScr sh].map (Store.scriptToKeyIdx C (c .bech32) [k]) = [none, none, none, none] := by decide
+
 /-! ### the key store over one invocation: "the private key the wallet LATER signs with"
 
 `keys []*btc.PrivateAddr` lives as long as the process; `main()` strings several operations together in one run
@@ -663,23 +748,43 @@ behind the first —, then sign_tx), and every lookup returns a pointer into tha
 
 /-- The facts about the CURRENT source the store model rests on, regenerated by gen_c14 (store.go) on every run:
     no function from which the process goes on holds (or reaches) a write to the key bytes of a stored record — the one
-    writer, cleanExit, ends the process —; `keys` is only ever assigned by `keys = append(keys, rec)` in load_others and
-    make_wallet; the three index lookups return the first match. An edit that makes any operation wipe, overwrite or
-    re-use the bytes of a key that stays in the list (a `defer sys.ClearBuffer(k.Key)` on a looked-up record, a helper
-    doing it to its parameter, a `keys[i] = …`) changes these lists and this theorem stops checking. -/
+    writer, cleanExit, ends the process on every path (os.Exit last, no return statement) —; `keys` is only ever assigned
+    by `keys = append(keys, rec)` in load_others and make_wallet; the index lookups return the first match;
+    pkscr_to_key_idx dispatches the four templates — byte for byte the conditions of `Store.scriptToKeyIdx` — to
+    pubhash / scripthash / pubhash / x-only lookups, and sign_tx calls those lookups and NOT hash_to_key_idx.
+    What the extractor counts as a write is CONSERVATIVE but syntactic (see go/cmd/gen_c14/store.go): assignments,
+    `*R = …`, `append(key, …)`, known writers in their written position, and key bytes or a record handed to ANY callee
+    that is neither an allow-listed reader nor an analysable function of package wallet (closures, function literals,
+    unknown library calls, helpers returning the bytes, composite literals, a buffer shared between loop iterations).
+    It does NOT see: a write made inside an allow-listed reader or another package after an edit there, reflection /
+    unsafe, key bytes passed on through channels, maps, package variables or fields of non-record structs, goroutines,
+    and it does not pin the CONDITIONS inside the lookups (which hash a lookup compares) — for all of these the
+    sessions of the harness (real binary, signatures judged by an independent verifier) are the only guard. -/
 theorem key_store_source_facts :
     Gen.WalletKeyStoreFacts.keyWritersLive = [] ∧
     (∀ f ∈ Gen.WalletKeyStoreFacts.keyWritersDirect, f ∈ Gen.WalletKeyStoreFacts.processEnders) ∧
     (∀ f ∈ Gen.WalletKeyStoreFacts.keysAssigners, f ∈ ["load_others", "make_wallet"]) ∧
     Gen.WalletKeyStoreFacts.keysAssignsAreAppends = true ∧
-    Gen.WalletKeyStoreFacts.lookupsReturnFirstMatch = true := by decide
+    Gen.WalletKeyStoreFacts.lookupsReturnFirstMatch = true ∧
+    Gen.WalletKeyStoreFacts.pkscrDispatch =
+      ["len(scr)=25 scr[0]=118 scr[1]=169 scr[2]=20 scr[23]=136 scr[24]=172 -> pubhash_to_key_idx scr[3:23]",
+       "len(scr)=23 scr[0]=169 scr[1]=20 scr[22]=135 -> scripthash_to_key_idx scr[2:22]",
+       "len(scr)=22 scr[0]=0 scr[1]=20 -> pubhash_to_key_idx scr[2:]",
+       "len(scr)=34 scr[0]=81 scr[1]=32 -> public_xo_to_key_idx scr[2:]"] ∧
+    Gen.WalletKeyStoreFacts.signTxLookups =
+      ["pubhash_to_key_idx", "public_to_key", "public_xo_to_key_idx", "scripthash_to_key_idx"] := by decide
 
 /-- Every operation of a session signs / exports with the key of the listed address, whatever came before it in the
     same process: for ANY sequence of operations after the first make_wallet (further make_wallet calls, message
     signatures, transaction signatures, dumps, in any order and number), the records each operation uses — index and
     CURRENT key bytes — are exactly those the same operation finds in a list derived once and never touched
-    (`pureUse`: the lookups of `address_is_signing_key*` on the fresh list), provided no function the session is made of
-    writes a stored key (`Quiet wipers`). The second make_wallet's copies never answer a lookup. -/
+    (`pureUse`: `address_to_key` for messages and dumps — `address_is_signing_key*` —, the per-template script lookup
+    of sign_tx for transaction inputs — `script_lookup_own_forms` / `script_lookup_foreign_forms` — on the fresh list),
+    provided no function the session is made of writes a stored key (`Quiet wipers`: then `clobber` is the identity, so
+    ALL the content about "nobody writes a stored key" sits in the generated constant `keyWritersLive = []`, see
+    `key_store_source_facts` for what that extractor sees and does not see). The second make_wallet's copies never
+    answer a lookup. `fresh` is the same for every make_wallet of the run: true for a password taken from the seed
+    file; a TYPED password is asked for again by the second make_wallet and may differ — not modelled. -/
 theorem session_signs_with_listed_key (wipers : List String) (hq : Store.Quiet wipers)
     (C : WalletCrypto) (c : Config) (fresh : List KeyRec) (junk : Bytes) (ops : List Store.Op) :
     (Store.run wipers C c fresh junk [] (.makeWallet :: ops)).2 = [] :: ops.map (Store.pureUse C c fresh) := by
